@@ -6,7 +6,7 @@
     x |-> Derivative(x,1). *)
 From Coq Require Import Reals ZArith List.
 From Coquelicot Require Import Coquelicot.
-From LP Require Import Num NumR C01_Model C01_Proofs C01_Proofs_Table C01_Proofs_Global C01_Proofs_Accept C01_Proofs_Session.
+From LP Require Import Num NumR C01_Model C01_Proofs C01_Proofs_Table C01_Proofs_Global C01_Proofs_Accept C01_Proofs_Session C01_Proofs_Bounds.
 Import ListNotations.
 Local Open Scope R_scope.
 
@@ -417,3 +417,29 @@ Theorem C01_session_1d_answers_of_assigned_table :
     end = Ok v.
 Proof. exact (@session_1d_last_answer). Qed.
 Print Assumptions C01_session_1d_answers_of_assigned_table.
+
+(** ** Quantitative bounds behind the implementation-side predicates
+
+    "between two adjacent abscissae, is monotone", as a statement about the reported first derivative: on the closed segment j
+    (at the interior knot x_{j+1}, where Locate answers with the next segment, the value reported is the common slope)
+    Derivative(x,1) has the sign of the secant slope s_j of that segment and |Derivative(x,1)| <= 2 |s_j|.  The S4 clause
+    1d:deriv-sign tests the weaker bound 3 |s_j|.  Non-vacuity: [bounds_example]. *)
+Theorem C01_derivative_sign_and_bound xs ys : valid_table xs ys -> forall j x, (S j < length xs)%nat ->
+  nth j xs 0 <= x <= nth (S j) xs 0 ->
+  exists d, derivative ROps (tab xs ys) x 1 = Ok d /\
+    let s := (nth (S j) ys 0 - nth j ys 0) / (nth (S j) xs 0 - nth j xs 0) in 0 <= s * d /\ Rabs d <= 2 * Rabs s.
+Proof. exact (derivative_sign_and_bound xs ys). Qed.
+Print Assumptions C01_derivative_sign_and_bound.
+
+(** "all query points: ... the 1 % extrapolation zone at both ends": there the end cubic is extrapolated, so "stays between the two
+    tabulated values" cannot hold; what holds is that the returned value differs from the end value by at most 3 % of the end
+    segment's increment |y_1 - y_0| resp. |y_{N-1} - y_{N-2}| (the bound tested by the S4 clause 1d:edge-zone).
+    Non-vacuity: [zone_example]. *)
+Theorem C01_edge_zone_bound xs ys : valid_table xs ys -> forall x,
+  (nth 0 xs 0 - tolL xs < x < nth 0 xs 0 ->
+     exists v, interpolate ROps (tab xs ys) x = Ok v /\ Rabs (v - nth 0 ys 0) <= 3 / 100 * Rabs (nth 1 ys 0 - nth 0 ys 0)) /\
+  (nth (length xs - 1) xs 0 < x < nth (length xs - 1) xs 0 + tolR xs ->
+     exists v, interpolate ROps (tab xs ys) x = Ok v /\
+               Rabs (v - nth (length xs - 1) ys 0) <= 3 / 100 * Rabs (nth (length xs - 1) ys 0 - nth (length xs - 2) ys 0)).
+Proof. exact (edge_zone_bound xs ys). Qed.
+Print Assumptions C01_edge_zone_bound.
